@@ -8,6 +8,7 @@ package main
 
 import (
 	"bufio"
+	"sync"
 	"flag"
 	"fmt"
 	"os"
@@ -25,6 +26,7 @@ var drivers = map[string]*driver{}
 func register(name, help string, run func(*ctx)) { drivers[name] = &driver{name, help, run} }
 
 type ctx struct {
+	mu     sync.Mutex
 	out    *bufio.Writer
 	rng    *rng
 	tier   string
@@ -36,10 +38,16 @@ type ctx struct {
 }
 
 func (c *ctx) thorough() bool { return c.tier == "thorough" }
-func (c *ctx) count(k string)  { c.stats[k]++ }
+func (c *ctx) count(k string) {
+	c.mu.Lock()
+	c.stats[k]++
+	c.mu.Unlock()
+}
 
 // emit writes one case line.
 func (c *ctx) emit(kind string, kv ...any) {
+	c.mu.Lock()
+	defer c.mu.Unlock()
 	c.out.WriteString(kind)
 	for i := 0; i+1 < len(kv); i += 2 {
 		c.out.WriteByte('\t')
